@@ -8,7 +8,7 @@ PROBES = ("forwards", "twin_checks")
 RULE = ("DeepONets over generated architectures (FC trunk with/without Sequential(NormalizationLayer, .), FC and Conv1D branches, "
         "trunk input dimension 1-2, function output dimension 1-2, output dimension 1-3; half of the cases with per-layer activation lists (tanh/sigmoid/softplus/silu) and xavier-gain lists over 1-3 hidden layers) and a *history* of operations: "
         "fix_branch_input(kind) with kind in {callable, 2D tensor, 3D tensor, Points, FunctionSet, FunctionSetCollection = sum of 2-4 function sets of unequal sizes}, "
-        "forward(trunk batch) with shared (N,d) and per-function (F,N,d) layouts, forward(trunk, branch_inputs=...). After every "
+        "forward(trunk batch) with shared (N,d) and per-function (F,N,d) layouts, forward(trunk, branch_inputs=...); 30 % of the cases end with training-path blocks: steps of 2-4 _forward_branch(function set, step number or None) calls on the one network over 2-3 persistent function sets that may repeat non-adjacently within a step, each followed by a forward without branch inputs. After every "
         "forward: out[i,j,c] == sum_m B[i,c,m] T[j,c,m] with B computed by applying the branch layers ourselves to our own "
         "discretisation of the MOST RECENTLY fixed function(s) and T from the plain twin; invariance under permuting the trunk "
         "batch; and R-twin (same weights, trunk_input_copied=False): equal outputs, first and second input derivatives "
